@@ -390,3 +390,76 @@ def iterator_fold(facts, body, op):
         if all(n in plain | {"copied", "cloned"} for n in rest):
             return {"kind": "max", "field": fld, "root": root, "init": init, "call": head}
     return None
+
+
+def path_parts(body, op, depth=0):
+    """Operands a filesystem path is assembled from, in order, for the idioms
+    Path::new(a).join(b) / PathBuf::from(a) + push(b) / [a, b].iter().collect::<PathBuf>() /
+    temp_dir() + push(x). Returns a list of operands (leaf components) or None when the shape is
+    not one of these."""
+    if depth > 8:
+        return None
+    p = op_place(op)
+    if p is None:
+        return [op]
+    ds = body.defs.get(p["l"], [])
+    if len(ds) != 1:
+        return [op]
+    bb, kind, d = ds[0]
+    if kind == "assign":
+        rv = d["rv"]
+        if rv["k"] in ("use",):
+            return path_parts(body, rv["op"], depth + 1)
+        if rv["k"] == "ref" and not [e for e in rv["place"]["p"] if e != "*"]:
+            return path_parts(body, {"copy": {"l": rv["place"]["l"], "p": []}}, depth + 1)
+        return [op]
+    c = d
+    if c.matches(r"^std::path::Path::join$"):
+        base = path_parts(body, c.args[0], depth + 1)
+        return None if base is None else base + [c.args[1]]
+    if c.matches(r"^std::path::Path::new$|^std::path::PathBuf::from$|PathBuf as std::convert::From<.*>>::from$|::from$") and len(c.args) == 1 and ("Path" in c.func.get("full", "")):
+        parts = [c.args[0]]
+        # later push() calls on this buffer
+        for m in body.calls:
+            if m.matches(r"^std::path::PathBuf::push$") and _base_local(body, m.args[0]) == p["l"]:
+                parts.append(m.args[1])
+        return parts
+    if c.matches(r"::deref$|::as_path$|::to_path_buf$|::as_ref$|::clone$") and c.args:
+        return path_parts(body, c.args[0], depth + 1)
+    if c.matches(r"::collect$") and "PathBuf" in c.func.get("full", ""):
+        chain, root = call_chain(body, c.args[0])
+        # the array literal at the bottom of .iter()
+        cur = chain[-1].args[0] if chain else c.args[0]
+        for _ in range(6):
+            q = op_place(cur)
+            if q is None:
+                break
+            dd = single_def(body, q["l"])
+            if dd and dd[1] == "assign" and dd[2]["rv"]["k"] == "agg" and dd[2]["rv"].get("agg") == "array":
+                return list(dd[2]["rv"]["ops"])
+            if dd and dd[1] == "assign" and dd[2]["rv"]["k"] in ("use", "cast"):
+                cur = dd[2]["rv"]["op"]
+            elif dd and dd[1] == "assign" and dd[2]["rv"]["k"] == "ref":
+                cur = {"copy": {"l": dd[2]["rv"]["place"]["l"], "p": []}}
+            else:
+                break
+        return None
+    if c.matches(r"^std::env::temp_dir$"):
+        parts = [op]
+        for m in body.calls:
+            if m.matches(r"^std::path::PathBuf::push$") and _base_local(body, m.args[0]) == p["l"]:
+                parts.append(m.args[1])
+        return parts
+    return [op]
+
+
+def _base_local(body, op, depth=0):
+    p = op_place(op)
+    if p is None or depth > 6:
+        return None
+    d = single_def(body, p["l"])
+    if d and d[1] == "assign" and d[2]["rv"]["k"] == "ref" and not [e for e in d[2]["rv"]["place"]["p"] if e != "*"]:
+        return _base_local(body, {"copy": {"l": d[2]["rv"]["place"]["l"], "p": []}}, depth + 1) if single_def(body, d[2]["rv"]["place"]["l"]) and single_def(body, d[2]["rv"]["place"]["l"])[1] == "assign" and single_def(body, d[2]["rv"]["place"]["l"])[2]["rv"]["k"] == "ref" else d[2]["rv"]["place"]["l"]
+    if d and d[1] == "assign" and d[2]["rv"]["k"] == "use":
+        return _base_local(body, d[2]["rv"]["op"], depth + 1)
+    return p["l"]
